@@ -288,7 +288,10 @@ fn def_roots(s: &S, is_root: bool, out: &mut Vec<bool>) {
 fn pick_site(s: &S, ch: &mut Ch) -> Option<usize> {
     let mut roots = vec![];
     def_roots(s, false, &mut roots);
-    let allowed: Vec<usize> = roots.iter().enumerate().filter(|(_, r)| !**r).map(|(i, _)| i).collect();
+    // Now and then the root of a definition's right-hand side is allowed as well: whether the
+    // rewritten group still satisfies the definition-order rule is decided afterwards (R-order).
+    let roots_too = ch.chance(1, 3);
+    let allowed: Vec<usize> = roots.iter().enumerate().filter(|(_, r)| roots_too || !**r).map(|(i, _)| i).collect();
     if allowed.is_empty() { None } else { Some(allowed[ch.pick(allowed.len())]) }
 }
 
@@ -602,6 +605,12 @@ fn rewrite_case(ctx: &Ctx, ch: &mut Ch) -> Outcome {
     let new_unannotated_def = unannotated_defs_with_omissions(&rewritten) > unannotated_defs_with_omissions(&base);
     if new_unannotated_def && !ch.chance(1, 8) {
         ctx.class("excluded by construction: rewrite puts a term with omitted annotations under an un-annotated definition (recorded finding)");
+        return Ok(());
+    }
+    // A rewrite at the root of a definition can turn a syntactic value into a non-value; the
+    // rewritten program is in the domain only if it still satisfies the definition-order rule.
+    if !crate::refs::order::order_ok(&rewritten.flatten()) {
+        ctx.class("excluded: the rewritten program does not satisfy the definition-order rule (a definition stopped being a syntactic value)");
         return Ok(());
     }
     let (ta, tb) = (sast::print_plain(&base), sast::print_plain(&rewritten.flatten()));
